@@ -19,7 +19,7 @@ from mc.flo import runner
 def family():
     from mc.flo import families as F
     for label, prog, meta in F.fam_markers():
-        yield label, prog, dict(deep=False)
+        yield label, prog, dict(deep=bool(meta.get("xe")))
     for label, prog, meta in F.fam_markers_guarded():
         yield label, prog, dict(deep=True)
     if core.TIER != "quick":
